@@ -206,21 +206,27 @@ class C16(Check):
                  'UAX35 formatter / CSV writer / type table')
     rule = ('(a) cases = every date part of the documented grammar (d|dd x '
             'M|MM x yy|yyyy x orders dmy/mdy/ymd x separators - / . and the '
-            'separator-free padded forms; thorough: also space and mixed '
-            'separators, and the inline "format" spelling), each with no '
-            'time part or {space,T} x {HH:mm, HH:mm:ss, .S, .SS, .SSS}, x 10 '
-            '(quick) / 90 (thorough) boundary instants, single-row files '
-            'and one multi-row file with a null per pattern, through '
-            'csv2pandas and through csvw_date_format_to_md_date_format + '
-            'strptime; (b) cases = tables of 2 (thorough: also 3) columns '
-            'over 8 (thorough 10) column kinds boolean/integer/number/string/'
-            'date x2 formats/datetime x2 formats with 0-2 (thorough 0-3) '
-            'rows and nulls x delimiter {, | tab ;} x encoding {utf-8, '
-            'latin-1, utf-16} x header {present, "header": false, '
-            '"headerRowCount": 0} x boolean format {default, Y|N, 1|0} x '
-            'metadata form/layout/lookup route; non-trivial = at least one '
+            'separator-free padded forms = 78; thorough: also space and '
+            'mixed separators = 246, and the inline "format" spelling), each '
+            'with no time part or {space,T} x {HH:mm, HH:mm:ss, .S, .SS, '
+            '.SSS}, x 10 (quick) / 90 (thorough) boundary instants, as '
+            'single-row files and as one multi-row file with a null per '
+            'pattern through csv2pandas, and through '
+            'csvw_date_format_to_md_date_format + strptime; (b) cases = '
+            'tables of 2 (thorough: also 3) columns over 8 (thorough 10) '
+            'column kinds boolean/integer/number/string/date x2 formats/'
+            'datetime x2 formats with 0-2 (thorough 0-3) rows and nulls x '
+            'delimiter {, | tab ;} x encoding {utf-8, latin-1, utf-16} x '
+            'header {present, "header": false, "headerRowCount": 0} x '
+            'boolean format {default, Y|N, 1|0} x metadata form {datatype '
+            'object, inline format} x layout {url+tableSchema, tables[]} x '
+            'lookup {csv+metadata path, metadata path only, findmd} x '
+            'dialect defaults {omitted, spelt out}, organised as base / one '
+            'deviation / all dialects layers; non-trivial = at least one '
             'cell or instant for which the model says "must" was compared '
-            '(tables: at least one non-null specified cell)')
+            '(tables: at least one non-null specified cell); every failing '
+            'table is re-loaded with each configuration deviation put back '
+            'to its default to name the deviations the failure needs')
     assumptions = [
         'pinned pandas 3.0.6 / python 3.12 strptime are the trusted readers '
         'behind the translated formats; the token ISO8601 is read with '
@@ -232,10 +238,14 @@ class C16(Check):
         'not generated because CSVW defaults make them ambiguous: strings '
         'with leading/trailing blanks (trim), strings starting with # '
         '(commentPrefix), empty strings (equal to the null marker), '
-        'single-column tables (a null row is a blank line)',
+        'single-column tables (a null row is a blank line), "header": false '
+        'together with a contradicting "headerRowCount"',
         'dtype families accepted as "the declared type": boolean|bool, '
         'Int64|int64, float64|Float64, string|str, datetime64[any unit] '
         'without time zone',
+        'thorough instants are a fixed alphabet: 9 years x 8 month/day pairs '
+        'with six clock times in rotation + every clock time on one date; '
+        'fractions below the pattern\'s digits are cut, not rounded (UAX35)',
         'bounds: 2-3 columns, 0-3 rows, the value alphabets listed in '
         'checks/c16.py',
     ]
@@ -326,7 +336,7 @@ class C16(Check):
                                          route=route, explicit=ex)
         elif layer == 'b-dialects':
             for d in all_dialects(min_dev=2):
-                for n in (0, 1, 2):
+                for n in ((0, 1, 2) if tier == 'thorough' else (0, 1)):
                     lite = specs(tier, n, False)
                     for a in lite:
                         for b in lite:
@@ -805,8 +815,9 @@ class C16(Check):
                 for f in fails:
                     if (f['key'], f['col']) not in still:
                         needed[id(f)].append(name(val))
-            ctxs = dict((k, ','.join(v) or
-                         ('default' if not devs else 'any-configuration'))
+            # 'base': no deviation from the default configuration is
+            # needed for this failure
+            ctxs = dict((k, ','.join(v) or 'base')
                         for k, v in needed.items())
         for f in fails:
             R.viol('b:%s:%s' % (f['key'], ctxs[id(f)]), f['clause'],
